@@ -278,7 +278,36 @@ type FuncResult struct {
 }
 
 // VerifyFunc generates and discharges the obligations of one function instance.
+// VerifyFunc generates the obligations of one function. A call to a function without
+// any contract is treated as arbitrary code: it may write every heap component and
+// returns arbitrary values. Components are created lazily, so when such a call is met
+// the function is executed a second time with every component of the first pass
+// materialised in the entry state (a havoc of "everything" is then a havoc of every key
+// of the state).
 func (v *Verifier) VerifyFunc(fn *ssa.Function, ct *FuncContract, display string) (res *FuncResult) {
+	res, fc := v.verifyFuncOnce(fn, ct, display, nil)
+	if fc != nil && fc.sawUnknownCall && res.Err == "" {
+		pre := &preReg{sort: fc.compSort, ty: fc.compTy}
+		res, _ = v.verifyFuncOnce(fn, ct, display, pre)
+	}
+	return res
+}
+
+type preReg struct {
+	sort map[string]string
+	ty   map[string]types.Type
+}
+
+func heapLikeKey(k string) bool {
+	for _, p := range []string{"H:", "E:", "P:", "Mdom:", "Mval:", "Mlen:", "G:"} {
+		if strings.HasPrefix(k, p) {
+			return true
+		}
+	}
+	return false
+}
+
+func (v *Verifier) verifyFuncOnce(fn *ssa.Function, ct *FuncContract, display string, pre *preReg) (res *FuncResult, fcOut *FuncCtx) {
 	res = &FuncResult{Key: display, Func: fn.String()}
 	if fn.Origin() != nil {
 		res.Instance = fn.String()
@@ -293,6 +322,7 @@ func (v *Verifier) VerifyFunc(fn *ssa.Function, ct *FuncContract, display string
 		paramCell: map[*ssa.Alloc]string{}, opaqueComps: map[string][]string{}, paramAlloc: map[*ssa.Alloc]string{},
 	}
 	fc.typeArgs = typeArgsOf(fn)
+	fcOut = fc
 	defer func() {
 		if r := recover(); r != nil {
 			switch e := r.(type) {
@@ -325,9 +355,29 @@ func (v *Verifier) VerifyFunc(fn *ssa.Function, ct *FuncContract, display string
 	st := fc.init.clone()
 	// parameters
 	fc.registerComp(nextKey, "Int")
-	for _, p := range fn.Params {
+	if pre != nil {
+		var keys []string
+		for k := range pre.sort {
+			if heapLikeKey(k) {
+				keys = append(keys, k)
+			}
+		}
+		sort.Strings(keys)
+		for _, k := range keys {
+			fc.registerComp(k, pre.sort[k])
+			if t, ok := pre.ty[k]; ok {
+				fc.compTy[k] = t
+			}
+			st.m[k] = fc.get(st, k)
+		}
+		fc.preRegistered = true
+	}
+	for pi, p := range fn.Params {
 		so := fc.S.SortOf(p.Type())
 		n := "p_" + sanitize(p.Name())
+		if p.Name() == "_" {
+			n = fmt.Sprintf("p_blank%d", pi)
+		}
 		fc.specHdr = append(fc.specHdr, fmt.Sprintf("(declare-const %s %s)", n, so))
 		pv := Val{T: n, Ty: p.Type()}
 		if _, ok := p.Type().Underlying().(*types.Signature); ok {
